@@ -4,7 +4,7 @@
    DecConcurrentTasks (remove `cores` tokens one by one, no lock). *)
 From Coq Require Import List Arith Lia Bool String.
 Import ListNotations.
-From SP Require Import Skel Gen Expected Slots Slots7 SlotsTop.
+From SP Require Import Skel Gen Expected ExpectedCones Slots Slots7 SlotsTop.
 From SP Require NetA Inv NetSlots.
 
 (* T1: the two slot functions have exactly the modelled shape, and Task.Execute brackets the command with them *)
@@ -49,9 +49,19 @@ Theorem C06_in_workflow : forall (p : NetSlots.pcfg) (len : nat -> nat),
   tsum executing (tasks (NetSlots.sl s)) <= NetSlots.pcap p.
 Proof. exact NetSlots.product_slots_never_exceeded. Qed.
 
+(* T1, call cones: every function of scipipe that the functions above can reach (calls and function values, interface calls
+   resolved to every implementation) is one the models were compared with -- a helper that is new to the cone, or a new call
+   of an old one, changes a list (the lists are regenerated from /repo on every run; ExpectedCones.v holds the accepted ones) *)
+Theorem C06_cone_conforms :
+  strs_eqb cone_Workflow_IncConcurrentTasks exp_cone_Workflow_IncConcurrentTasks
+  && strs_eqb cone_Workflow_DecConcurrentTasks exp_cone_Workflow_DecConcurrentTasks
+  && strs_eqb cone_Task_Execute exp_cone_Task_Execute = true.
+Proof. vm_compute. reflexivity. Qed.
+
 Print Assumptions C06_code_conforms.
 Print Assumptions C06_order_facts.
 Print Assumptions C06_slots_never_exceeded.
 Print Assumptions C06_invariant_form.
 Print Assumptions C06_nonvacuous.
 Print Assumptions C06_in_workflow.
+Print Assumptions C06_cone_conforms.
